@@ -66,6 +66,8 @@ Inductive mexpr :=
                                           decision tree, so a symbolic index does not block the evaluation) *)
 | EWriteSlot (l : lval) (i v : mexpr)  (* l[i].write(v) *)
 | EAssumeInit (e : mexpr)              (* .assume_init(): undefined behaviour on an unwritten slot *)
+| EAssumeInitAll (e : mexpr)           (* reading a whole array of MaybeUninit slots as initialised (pointer cast + read): undefined
+                                          behaviour if any slot is unwritten *)
 | EUs (o : Z) (a b : mexpr)            (* usize arithmetic on counters: 1 +, 2 - (underflow panics) *)
 | ESplitAt (e : mexpr) (k : mexpr)     (* .split_at(k) as the array of the two halves *)
 | EForRange (x : string) (lo hi body : mexpr)   (* for x in lo..hi *)
@@ -485,6 +487,12 @@ Fixpoint eval (e : mexpr) (en : env) {struct e} : tree outcome :=
   | EAssumeInit a =>
       do (v, en1) <- eval a en;
       match v with MUninit => Leaf OUB | _ => ret1 v en1 end
+  | EAssumeInitAll a =>
+      do (v, en1) <- eval a en;
+      match v with
+      | MArr l => if existsb (fun x => match x with MUninit => true | _ => false end) l then Leaf OUB else ret1 (MArr l) en1
+      | _ => Leaf OType
+      end
   | EUs o a b =>
       do (x, en1) <- eval a en;
       do (y, en2) <- eval b en1;
